@@ -297,6 +297,41 @@ class Module:
             elif isinstance(st, ast.Try):
                 self._scan(st.body)
 
+    MUTATORS = {"append", "extend", "insert", "add", "update", "setdefault", "pop", "popitem", "clear", "remove",
+                "discard", "sort", "reverse", "appendleft"}
+
+    def mutated_globals(self) -> Dict[str, int]:
+        """Module-level names whose value some function of this module changes (``global`` rebinding, item
+        assignment / deletion, mutator method calls): name -> line of the first such site.  Their value at a call is
+        not the initial one."""
+        cached = getattr(self, "_mutated_globals", None)
+        if cached is not None:
+            return cached
+        out: Dict[str, int] = {}
+        assigned = {n for n, b in self.bindings.items() if b.kind == "assign"}
+        for fn in ast.walk(self.tree):
+            if not isinstance(fn, (ast.FunctionDef, ast.AsyncFunctionDef, ast.Lambda)):
+                continue
+            body = fn.body if isinstance(fn.body, list) else [fn.body]
+            nodes = [n for b in body for n in ast.walk(b)]
+            declared = {nm for n in nodes if isinstance(n, ast.Global) for nm in n.names}
+            local = {n.id for n in nodes if isinstance(n, ast.Name) and isinstance(n.ctx, ast.Store)} - declared
+            local |= {a.arg for a in fn.args.args + fn.args.kwonlyargs + fn.args.posonlyargs}
+            for n in nodes:
+                name = None
+                if isinstance(n, ast.Name) and isinstance(n.ctx, ast.Store) and n.id in declared:
+                    name = n.id
+                elif isinstance(n, ast.Subscript) and isinstance(n.ctx, (ast.Store, ast.Del)) \
+                        and isinstance(n.value, ast.Name):
+                    name = n.value.id
+                elif isinstance(n, ast.Call) and isinstance(n.func, ast.Attribute) and n.func.attr in self.MUTATORS \
+                        and isinstance(n.func.value, ast.Name):
+                    name = n.func.value.id
+                if name is not None and name in assigned and name not in local:
+                    out.setdefault(name, getattr(n, "lineno", 0))
+        self._mutated_globals = out  # type: ignore
+        return out
+
     def lookup(self, name: str, _depth: int = 0) -> Optional[Tuple[str, Any]]:
         """Resolve a module-level name.
 
@@ -311,6 +346,8 @@ class Module:
         if b.kind == "class":
             return ("class", b.cls)
         if b.kind == "assign":
+            if name in self.mutated_globals():
+                return ("mutable-global", (self, b.node, self.mutated_globals()[name]))
             return ("assign", (self, b.value))
         if b.kind == "import":
             m = self.loader.module(b.module)
